@@ -283,7 +283,10 @@ def main():
             rec = {k: v for k, v in s.items() if k != "text"}
             try:
                 open(path, "w").write(s["text"])
-                r = sh(f"cd {wt} && PYTHONPATH={wt} /venv/bin/python -m pytest "
+                # (address-space limit: a mutant that loops while growing
+                # a list must not exhaust the machine's memory)
+                r = sh(f"ulimit -v 8000000; cd {wt} && PYTHONPATH={wt} "
+                       "/venv/bin/python -m pytest "
                        "-x -q -p no:cacheprovider -n 6 2>&1 | tail -1", env=env,
                        timeout=1200)
                 rec["suite"] = r.stdout.strip()[-80:]
@@ -296,7 +299,8 @@ def main():
                     rec["outcome"] = "survived"
                     rec["ran"] = []
                     for c in order:
-                        r = sh(f"cd {HERE} && VERIF_REPO={wt} VERIF_SEED=1 "
+                        r = sh(f"ulimit -v 8000000; cd {HERE} && "
+                               f"VERIF_REPO={wt} VERIF_SEED=1 "
                                f"VF_BUDGET_MULT={args.mult} "
                                f"VF_FOUND_DIR={wt}/.found ./check {c} quick "
                                f"--no-evidence --procs {args.procs}", env=env)
